@@ -10,6 +10,33 @@ import (
 	"verif/harness/stats"
 )
 
+// weighted draws a class index with the given relative weights.  rapid's
+// integer, SampledFrom and OneOf generators all favour small values and the
+// ends of the range; only single bits are uniform, so the class is taken
+// from 16 drawn bits.
+func weighted(t *rapid.T, label string, weights ...int) int {
+	total := 0
+	for _, w := range weights {
+		total += w
+	}
+	bits := rapid.SliceOfN(rapid.Bool(), 16, 16).Draw(t, label)
+	v := 0
+	for _, b := range bits {
+		v <<= 1
+		if b {
+			v |= 1
+		}
+	}
+	v = v * total >> 16
+	for i, w := range weights {
+		if v < w {
+			return i
+		}
+		v -= w
+	}
+	return len(weights) - 1
+}
+
 var boundaryInts = []int32{
 	0, 1, -1, 106, 107, 108, 109, -106, -107, -108, -109, 1130, 1131, 1132, 1133, -1130, -1131, -1132, -1133,
 	32766, 32767, 32768, 32769, -32767, -32768, -32769, -32770, 65535, 65536, 1 << 24, -(1 << 24),
@@ -32,7 +59,7 @@ func genInt32() *rapid.Generator[int32] {
 // as a separately labelled class - magnitudes outside that range.
 func genReal(extreme bool) *rapid.Generator[float64] {
 	return rapid.Custom(func(t *rapid.T) float64 {
-		k := rapid.IntRange(0, 11).Draw(t, "realKind")
+		k := weighted(t, "realKind", 1, 1, 1, 1, 1, 1, 1, 1, 1, 1, 1, 1)
 		if k == 11 && !extreme {
 			k = 5
 		}
@@ -80,7 +107,7 @@ func genReal(extreme bool) *rapid.Generator[float64] {
 		default:
 			// outside the window: the library documents clamping on input
 			return rapid.SampledFrom([]float64{1e-301, -1e-305, 1e-310, 1e-320, 5e-324, -5e-324, 2.5e-308,
-				1.0000001e300, 1e301, -1e305, math.MaxFloat64, -math.MaxFloat64}).Draw(t, "outside")
+				1.0000001e300, 1e301, -1e305, 1.7e308, -1.7e308}).Draw(t, "outside")
 		}
 	})
 }
@@ -101,7 +128,7 @@ func rangeTables() []*unicode.RangeTable {
 
 func genMatrix(def [6]float64, extreme bool) *rapid.Generator[[6]float64] {
 	return rapid.Custom(func(t *rapid.T) [6]float64 {
-		switch rapid.IntRange(0, 7).Draw(t, "matrixKind") {
+		switch weighted(t, "matrixKind", 1, 1, 1, 1, 1, 1, 1, 1) {
 		case 0, 1:
 			return def
 		case 2:
@@ -142,14 +169,17 @@ func genInfoString() *rapid.Generator[string] {
 var unicodeLetters = rangeTables()
 
 func genFontName() *rapid.Generator[string] {
-	return rapid.OneOf(
-		rapid.SampledFrom([]string{"Test", "Test-Bold", "ABCDEF+Test-Italic", "X", "Font_1.2"}),
-		rapid.StringMatching(`[A-Za-z][A-Za-z0-9+_.-]{0,62}`),
-		rapid.Custom(func(t *rapid.T) string {
+	return rapid.Custom(func(t *rapid.T) string {
+		switch weighted(t, "fontNameKind", 10, 10, 1) {
+		case 0:
+			return rapid.SampledFrom([]string{"Test", "Test-Bold", "ABCDEF+Test-Italic", "X", "Font_1.2"}).Draw(t, "name")
+		case 1:
+			return rapid.StringMatching(`[A-Za-z][A-Za-z0-9+_.-]{0,62}`).Draw(t, "name")
+		default:
 			// over-long names need offSize 2 in the Name INDEX
 			return strings.Repeat("N", rapid.IntRange(250, 300).Draw(t, "longName"))
-		}),
-	)
+		}
+	})
 }
 
 func genBlues(maxPairs int) *rapid.Generator[[]int16] {
@@ -158,7 +188,7 @@ func genBlues(maxPairs int) *rapid.Generator[[]int16] {
 		if pairs == 0 {
 			return nil
 		}
-		kind := rapid.IntRange(0, 9).Draw(t, "blueKind")
+		kind := weighted(t, "blueKind", 1, 1, 1, 1, 1, 1, 1, 1, 1, 1)
 		lo, maxStep := -300, 250
 		switch {
 		case kind == 8:
@@ -184,7 +214,7 @@ func genBlues(maxPairs int) *rapid.Generator[[]int16] {
 func genPriv() *rapid.Generator[privSpec] {
 	return rapid.Custom(func(t *rapid.T) privSpec {
 		p := privSpec{BlueScale: 0.039625, BlueShift: 7, BlueFuzz: 1}
-		if rapid.IntRange(0, 3).Draw(t, "plain") == 0 {
+		if weighted(t, "plain", 1, 3) == 0 {
 			return p
 		}
 		p.BlueValues = genBlues(7).Draw(t, "BlueValues")
@@ -210,27 +240,26 @@ func genPriv() *rapid.Generator[privSpec] {
 // sizeClass draws the number of glyphs.
 func genN(cid bool) *rapid.Generator[int] {
 	return rapid.Custom(func(t *rapid.T) int {
-		k := rapid.IntRange(0, 999).Draw(t, "sizeClass")
-		bigShare := 4 // 0.4 % in quick
+		big := 1 // about 0.3 % in quick
 		if stats.Thorough() {
-			bigShare = 50 // 5 % with > 10000 glyphs
+			big = 16 // 5 % with > 10000 glyphs
 		}
 		maxN := 65535
 		if !cid {
 			maxN = 64000 // SIDs are 16-bit: 391 standard + custom strings + info strings
 		}
-		switch {
-		case k < 60:
+		switch weighted(t, "sizeClass", 20, 130, 100, 35, 12, 4, big) {
+		case 0:
 			return 1
-		case k < 500:
+		case 1:
 			return rapid.IntRange(2, 20).Draw(t, "n")
-		case k < 820:
+		case 2:
 			return rapid.IntRange(21, 300).Draw(t, "n")
-		case k < 930-bigShare:
+		case 3:
 			return rapid.IntRange(250, 262).Draw(t, "n") // around the 255/256 limits of Card8 fields
-		case k < 985-bigShare:
+		case 4:
 			return rapid.IntRange(301, 1200).Draw(t, "n")
-		case k < 1000-bigShare:
+		case 5:
 			return rapid.IntRange(1201, 6000).Draw(t, "n")
 		default:
 			if rapid.Bool().Draw(t, "maxGlyphs") {
@@ -255,14 +284,19 @@ func genSpec(extreme bool) *rapid.Generator[*fontSpec] {
 		s.FullName = genInfoString().Draw(t, "FullName")
 		s.FamilyName = genInfoString().Draw(t, "FamilyName")
 		s.Weight = genInfoString().Draw(t, "Weight")
-		switch k := rapid.IntRange(0, 399).Draw(t, "noticeSize"); {
-		case s.Notice == "":
-		case k < 12:
-			s.NoticeRepeat = 70000/len(s.Notice) + 1 // String INDEX offSize 3
-		case k < 40:
-			s.NoticeRepeat = 300/len(s.Notice) + 1 // offSize 2
-		case k == 40 || (k < 60 && stats.Thorough()):
-			s.NoticeRepeat = (1<<24)/len(s.Notice) + 1 // offSize 4
+		huge := 0
+		if stats.Thorough() {
+			huge = 4
+		}
+		if s.Notice != "" {
+			switch weighted(t, "noticeSize", 360, 28, 12, huge) {
+			case 1:
+				s.NoticeRepeat = 300/len(s.Notice) + 1 // String INDEX offSize 2
+			case 2:
+				s.NoticeRepeat = 70000/len(s.Notice) + 1 // offSize 3
+			case 3:
+				s.NoticeRepeat = (1<<24)/len(s.Notice) + 1 // offSize 4
+			}
 		}
 		s.IsFixedPitch = rapid.Bool().Draw(t, "IsFixedPitch")
 		s.ItalicAngle = rapid.OneOf(
@@ -287,27 +321,31 @@ func genSpec(extreme bool) *rapid.Generator[*fontSpec] {
 			s.Registry = rapid.SampledFrom([]string{"Adobe", "Adobe", "Test", "space", "R"}).Draw(t, "Registry")
 			s.Ordering = rapid.SampledFrom([]string{"Identity", "Japan1", "GB1", "Adobe", "Bold", "O"}).Draw(t, "Ordering")
 			s.Supplement = rapid.OneOf(rapid.Int32Range(0, 7), genInt32()).Draw(t, "Supplement")
-			s.CIDMode = rapid.IntRange(0, numCIDModes-1).Draw(t, "CIDMode")
+			s.CIDMode = weighted(t, "CIDMode", 1, 1, 1, 1, 1)
 			s.CIDSeed = rapid.Uint64().Draw(t, "CIDSeed")
-			switch k := rapid.IntRange(0, 99).Draw(t, "fdClass"); {
-			case k < 25:
+			many := 1
+			if stats.Thorough() {
+				many = 3
+			}
+			switch weighted(t, "fdClass", 25, 45, 24, 3, many) {
+			case 0:
 				nfd = 1
-			case k < 70:
+			case 1:
 				nfd = rapid.IntRange(2, 5).Draw(t, "nfd")
-			case k < 94:
+			case 2:
 				nfd = rapid.IntRange(6, 40).Draw(t, "nfd")
-			case k < 97 || !stats.Thorough() && k < 99:
+			case 3:
 				nfd = rapid.IntRange(41, 254).Draw(t, "nfd")
 			default:
 				nfd = rapid.IntRange(255, 256).Draw(t, "nfd")
 			}
-			s.FDMode = rapid.IntRange(0, numFDModes-1).Draw(t, "FDMode")
+			s.FDMode = weighted(t, "FDMode", 1, 2, 2, 1, 1)
 			s.FDSeed = rapid.Uint64().Draw(t, "FDSeed")
 			s.FDRuns = rapid.IntRange(1, 40).Draw(t, "FDRuns")
 		} else {
-			s.NameMode = rapid.IntRange(0, numNameModes-1).Draw(t, "NameMode")
+			s.NameMode = weighted(t, "NameMode", 2, 1, 1, 1, 2, 2, 3)
 			s.NameSeed = rapid.Uint64().Draw(t, "NameSeed")
-			s.EncMode = rapid.IntRange(0, numEncModes-1).Draw(t, "EncMode")
+			s.EncMode = weighted(t, "EncMode", 2, 2, 1, 2, 2, 3, 3)
 			s.EncSeed = rapid.Uint64().Draw(t, "EncSeed")
 			maxEnc := s.N - 1
 			if maxEnc > 256 {
@@ -334,7 +372,7 @@ func genSpec(extreme bool) *rapid.Generator[*fontSpec] {
 			}
 		}
 
-		s.WidthMode = rapid.IntRange(0, numWidthModes-1).Draw(t, "WidthMode")
+		s.WidthMode = weighted(t, "WidthMode", 1, 2, 2, 2, 2, 1, 2, 1)
 		s.WidthSeed = rapid.Uint64().Draw(t, "WidthSeed")
 		s.WidthBase = rapid.OneOf(
 			rapid.SampledFrom([]float64{0, 500, 600, 1000, 250.5, 333.333, 999.99998474121094, 0.0000152587890625}),
